@@ -14,6 +14,10 @@ package slip
 // return-from / go marker an evaluation hands back: nothing more is evaluated
 // and the marker is the function's result.
 //@ every-function slip forward-exits
+// C03 / C15, package-wide: a function that appends text to a byte buffer it was
+// handed returns a buffer that starts with exactly the bytes it was given: what
+// was printed before is never touched by printing something after it.
+//@ every-function slip append-only
 // C05, package-wide (thorough tier): no function makes a number that existed
 // when it was entered the target of a mutating math/big method.
 //@ every-function slip operands-kept
